@@ -246,7 +246,11 @@ pub fn check_sizes(ctx: &mut Ctx) -> Result<(), Violation> {
 
 pub fn program_strategy(max_log2: u8, max_ops: usize) -> impl Strategy<Value = Program> {
     let op = (0u8..3, any::<u64>(), 0u8..8, any::<u32>(), any::<u8>(), any::<u32>());
-    (0u8..=max_log2, 0u8..3, prop_oneof![Just(0u32), any::<u32>()], proptest::collection::vec(op, 0..max_ops)).prop_map(|(log2, ty, default, raw)| {
+    // small tables most of the time (collisions are the point); large ones are expensive to
+    // allocate twice per program and get one program in sixteen
+    let small = max_log2.min(10);
+    let log2s = prop_oneof![15 => 0u8..=small, 1 => small..=max_log2];
+    (log2s, 0u8..3, prop_oneof![Just(0u32), any::<u32>()], proptest::collection::vec(op, 0..max_ops)).prop_map(|(log2, ty, default, raw)| {
         let size = 1u64 << log2;
         // a small pool of slots so that collisions are the norm
         let ops = raw
